@@ -32,6 +32,10 @@ CHECKS = {
          "dict: BFS over Add on 3 keys x 2 values until the state space (27 map contents) is closed, all observers checked twice in every state, plus every non-deduplicated history up to depth 4 (quick) / 6 (thorough) and ToDict of the same pair lists; strings: every argument of length <= 3 / 4 over {a,b,','} x every affix/separator of length <= 2, SplitN counts -1..3, vs. Go's strings with the documented argument order; buf: all write sequences of <= 3 / 4 strings with interleaved reads; frt: Pipe/PipeUnit/IfElse/IfElseUnit/IfOnly with counting thunks, tuple round trips, Sprintf1/2, Printf1/Println (captured), SInterP over every Go basic kind at boundary values.",
          "Go's strings/fmt are the oracles; the display form for SInterP is %d / %f / the string / %v as the statement says.",
          "DESIGN.md C14"),
+ "C12": ("explicit-state breadth-first search over histories of slice-package calls on the real slices (alias-group states, canonicalised; successor = replay + one call)",
+         "States are alias groups of real slice values sharing one backing array (windows read with unsafe, canonicalised by sorted windows + rank pattern of the covered cells); transitions apply every slice-package function to every member, binary functions with every other member or a fresh literal in both positions, Take/Skip with every count; after every transition every live value and every operand must still have the contents it had when produced. Depth 4 (quick) / 6 (thorough, capped at 2e6 states; the cap and the depth completed are reported).",
+         "One backing array per state (reduction argument in DESIGN.md C12); element type int; group size capped at 6/7 members (pruned transitions are counted).",
+         "DESIGN.md C12"),
 }
 NOT_APPLICABLE = []
 
